@@ -624,6 +624,7 @@ Section Coll2.
 Variable g : fs_cfg.
 Hypothesis Hc : 0 < fg_c g.
 Hypothesis Hg : fg_glob g = false.
+Hypothesis Hp : fg_proteins g = false.
 Variable cl : fs_coll.
 Let pfx := fc_pfx cl.
 Let rows := fc_rows cl.
@@ -686,7 +687,7 @@ Lemma exec_inits : forall ap s, exists s1,
 Proof.
   intros [|] s.
   - exists s. split; [reflexivity | intro n; reflexivity].
-  - rewrite inits_eq. destruct (exec_init_steps (seq 0 (fg_nlevels g)) s) as [s1 [He Hs1]].
+  - rewrite (inits_eq g pfx Hp). destruct (exec_init_steps (seq 0 (fg_nlevels g)) s) as [s1 [He Hs1]].
     exists s1. split; [exact He|]. intro n. rewrite Hs1. fold nl. rewrite own_result_exists. reflexivity.
 Qed.
 
@@ -835,6 +836,7 @@ Section Coll3.
 Variable g : fs_cfg.
 Hypothesis Hc : 0 < fg_c g.
 Hypothesis Hg : fg_glob g = false.
+Hypothesis Hp : fg_proteins g = false.
 Variable cl : fs_coll.
 Local Notation pfx := (fc_pfx cl).
 Local Notation rows := (fc_rows cl).
@@ -849,8 +851,8 @@ Theorem coll_exec : forall ap s,
   exists s', cexec (fs_coll_ops g ap cl) s = Some s' /\
     forall n, cget s' n = coll_effect g ap cl (cget s) n.
 Proof.
-  intros ap s Hap. rewrite (coll_ops_shape g ap cl Hg). rewrite cexec_app.
-  destruct (exec_inits g Hc cl ap s) as [sA [HeA HsA]]. rewrite HeA. rewrite cexec_app.
+  intros ap s Hap. rewrite (coll_ops_shape g ap cl Hg Hp). rewrite cexec_app.
+  destruct (exec_inits g Hc Hp cl ap s) as [sA [HeA HsA]]. rewrite HeA. rewrite cexec_app.
   destruct (exec_chunk_ops g Hc pfx rows sA) as [sB [HeB [HgB HsB]]]. rewrite HeB. rewrite cexec_app, cexec_app.
   destruct (exec_level_ops g Hc pfx rows sB HgB) as [sC [HeC [HlC HsC]]]. rewrite HeC.
   assert (HnotL : forall n, In n names -> forall lv, lv < nl -> n <> NLevel lv ext).
@@ -878,7 +880,7 @@ Proof.
     { cbn [own_result]. rewrite Z.eqb_refl. replace (lv <? nl) with true by (symmetry; apply Nat.ltb_lt; lia).
       destruct d; cbn; [apply Hd; reflexivity | reflexivity]. }
     rewrite Hown. destruct ap; cbn [negb andb]; [apply (Hap eq_refl); exact Hown | discriminate]. }
-  rewrite <- result_ops_eq in HeE. exists sE. split; [exact HeE|].
+  rewrite <- (result_ops_eq g pfx levels Hp) in HeE. exists sE. split; [exact HeE|].
   assert (Hassoc : forall lv, assoc_lv lv (combine (seq 0 nl) levels) = if lv <? nl then Some (nth lv levels []) else None).
   { intro lv. pose proof Hlen as Hlen'. set (L := levels) in *. rewrite <- Hlen'. rewrite assoc_combine_seq.
     cbn [Nat.leb andb Nat.add]. rewrite Nat.sub_0_r. reflexivity. }
@@ -944,15 +946,15 @@ Proof.
   intros ->. cbn in Hd. exact Hd.
 Qed.
 
-Theorem colls_exec : forall g, 0 < fg_c g -> fg_glob g = false -> fg_append g = false ->
+Theorem colls_exec : forall g, 0 < fg_c g -> fg_glob g = false -> fg_append g = false -> fg_proteins g = false ->
   forall cls seen s, (seen = true -> results0_present g (cget s)) ->
   exists s', cexec (fs_colls_ops g seen cls) s = Some s' /\
     forall n, cget s' n = run_effect g seen cls (cget s) n.
 Proof.
-  intros g Hc Hg Ha cls; induction cls as [|cl r IH]; intros seen s Hseen; cbn [fs_colls_ops run_effect].
+  intros g Hc Hg Ha Hp cls; induction cls as [|cl r IH]; intros seen s Hseen; cbn [fs_colls_ops run_effect].
   - exists s. split; [reflexivity | intro n; reflexivity].
   - rewrite cexec_app. rewrite Ha. cbn [orb].
-    destruct (coll_exec g Hc Hg cl (seen && (fc_pfx cl =? 0)%Z) s) as [s1 [He1 Hs1]].
+    destruct (coll_exec g Hc Hg Hp cl (seen && (fc_pfx cl =? 0)%Z) s) as [s1 [He1 Hs1]].
     { intros E n Hn. apply andb_true_iff in E. destruct E as [E1 E2]. apply Z.eqb_eq in E2.
       destruct (own_result_inv g cl n Hn) as [d [lv [-> [Hlv Hd]]]]. rewrite E2. apply (Hseen E1 d lv Hlv Hd). }
     rewrite He1.
@@ -971,8 +973,8 @@ Qed.
 Theorem run_exec : forall g s, run_ok g -> 0 < fg_c g ->
   exists s', fs_run g None s = Some s' /\ forall n, cget s' n = run_effect g false (fg_colls g) (cget s) n.
 Proof.
-  intros g s [Hg Ha] Hc. unfold fs_run, fs_run_ops.
-  apply (colls_exec g Hc Hg Ha (fg_colls g) false s). discriminate.
+  intros g s [Hg [Ha Hp]] Hc. unfold fs_run, fs_run_ops.
+  apply (colls_exec g Hc Hg Ha Hp (fg_colls g) false s). discriminate.
 Qed.
 
 (* the result files of a one-collection run hold exactly the rows and q-values of the C03 model *)
@@ -998,7 +1000,7 @@ Theorem run_single_results : forall g cl s, run_ok g -> 0 < fg_c g -> fg_colls g
         = Some (snd (nth lv (cf_confidence (fg_c g) (fg_dedup g) (fg_nlevels g) (fc_rows cl)) ([], [])))).
 Proof.
   intros g cl s Hok Hc Hcl. destruct (run_exec g s Hok Hc) as [s' [He Hs']]. exists s'. split; [exact He|].
-  intros lv Hlv. rewrite !Hs', Hcl. cbn [run_effect]. destruct Hok as [_ Ha]. rewrite Ha. cbn [orb andb].
+  intros lv Hlv. rewrite !Hs', Hcl. cbn [run_effect]. destruct Hok as [_ [Ha _]]. rewrite Ha. cbn [orb andb].
   unfold coll_effect. rewrite Z.eqb_refl. replace (lv <? fg_nlevels g) with true by (symmetry; apply Nat.ltb_lt; exact Hlv).
   cbn [andb negb orb app]. rewrite (side_confidence _ _ _ _ lv Hlv). cbn [fst snd]. split; [reflexivity|].
   intros Hd. rewrite Hd. reflexivity.
